@@ -36,14 +36,14 @@ def _drive(args):
         if kind == 'single':
             n, mode = a, b
             blocked = bool(mode & 1)
-            api = 'func' if mode & 2 else 'class'
+            api = 'func' if mode & 2 else ('class2' if n % 3 == 0 else 'class')
             recs = [vbsc.rec_content(r, n, vbsc.STYLES[(n + mode) % len(vbsc.STYLES)])]
         elif kind == 'fixedlist':
             blocked, api = True, 'class'
             recs = [vbsc.rec_content(r, n_, 'code', i * 97) for i, n_ in enumerate(a)]
         else:
             blocked = bool(tid & 1)
-            api = 'func' if tid % 5 == 0 else ('mixed' if tid % 5 == 2 else 'class')
+            api = 'func' if tid % 5 == 0 else ('mixed' if tid % 5 == 2 else ('class2' if tid % 5 == 3 else 'class'))
             recs = []
             off = 0
             style = r.choice(vbsc.STYLES)
